@@ -288,7 +288,7 @@ pub fn t3(cfg: T3Cfg) -> Corpus {
 /// T4: reapply loops in every guarded position. A loop body T is built from guards over the counter `$`,
 /// value expressions, and the reapply forms `^~ $ + 1`, `^~ $ + 2`, which may sit in a conditional arm (then / else /
 /// chained), as the right operand of `&&` / `||`, inside a group and after a sequencing operator. The body is the
-/// nested expression of `{ T } <~ 0` (or `0 ~> { T }`). Bodies that never terminate exhaust the reference
+/// nested expression of `{ T } <~ 0` (or `0 ~> { T }`), or the whole program (top-level reapply, input = counter). Bodies that never terminate exhaust the reference
 /// evaluator's fuel and are dropped (counted).
 pub fn t4(max: usize) -> Corpus {
     let mut g = Grammar::new(6);
@@ -344,6 +344,8 @@ pub fn t4(max: usize) -> Corpus {
         E::Bin(BinOp::Semi, b(l), b(r))
     }));
     g.add(D, 1, vec![VV, T], Box::new(|v| E::SeqBlank(v)));
+    // the loop at the top level of the program: the program input is the counter (run with inputs 0 and 5)
+    g.alias(P, T);
     g.add(P, 1, vec![T], Box::new(|mut v| E::Bin(BinOp::Apply, b(E::Nested(0, b(v.remove(0)))), b(E::Int(0)))));
     g.add(P, 1, vec![T], Box::new(|mut v| E::Bin(BinOp::ApplyTo, b(E::Int(0)), b(E::Nested(0, b(v.remove(0)))))));
     // the loop's result used by a pending operation of the caller
